@@ -1,6 +1,13 @@
-import sys, os
+import sys, os, re
 sys.path.insert(0, os.path.dirname(os.path.abspath(__file__)))
 from C01 import build, JOBS, OUTSIDE
-def queries(): return build('C02')
+# quick tier: the C01 quick histories that reach every structural case of the tree (split, merge, shift, root growth and collapse, emptying,
+# duplicate run across leaves, copy / assign / clear / bulk_load); the remaining C01 histories run with verify() in the thorough tier
+QUICK = re.compile(r'^(set_l4i4_lin_p1_g0_k1_o[0123]|set_l4i4_lin_p2_g0_k1_o[12]|multiset_l4i4_lin_p7_g0_k1_o[01]|set_l4i4_lin_p8_g0_k1_o[0123]|map_l4i4_lin_p1_g1_k1_o[0134])$')
+def queries():
+    qs = build('C02')
+    for q in qs:
+        q.tiers = ('quick', 'thorough') if QUICK.match(q.name) else ('thorough',)
+    return qs
 ASSUMPTIONS = ['same histories as C01; additionally the tree\'s own verify() runs after every mutating operation (tlx_die_unless -> failing assertion), a counting allocator asserts allocated == freed at the end, CBMC checks use-after-free, double free and leaks']
 EXPLANATION = 'invariants decided by executing the real verify() symbolically after each step of the C01 histories; allocation discipline by a counting allocator + CBMC heap checks'
